@@ -164,6 +164,55 @@ def free_text(rng, allow_empty=True, quotes=True):
     return " ".join(rng.choice(ws) for _ in range(rng.randrange(1, 5)))
 
 
+# C14's quantifier claims the round trip for "single-line descriptions without '#'" - free text as people type it, not a list
+# of blank-separated tokens: two blanks after a full stop, columns aligned with tabs, colons, quotes, brackets, every printable
+# punctuation character.  The importer reads a description as "everything after the first colon of the line" and the formula of a
+# Function term as "everything after the class name": the interior of both must come back unchanged.
+# Left out: texts that begin or end with a blank (the key / value cutter strips both ends).
+SEPARATORS = [" ", " ", " ", "  ", "   ", "\t", " \t", "\t\t", "  \t  ", ".  ", ": ", " : ", ":", ",  ", " -  ", "\u00a0", "      "]
+PUNCTUATION = [c for c in "!\"$%&'()*+,-./:;<=>?@[\\]^_`{|}~"]
+
+
+def spaced_text(rng, quotes=True):
+    """a single-line text without '#' whose first and last characters are visible: words and punctuation separated by single
+    blanks, runs of blanks, tabs, no-break spaces and mixtures of them"""
+    ok = [c for c in PUNCTUATION if quotes or c not in "'\"\\"]
+    ws = [w for w in WORDS if quotes or ("'" not in w and '"' not in w and "\\" not in w)] + ["Simple", "dimmer.", "x", "1", "::", "key: value"]
+    n = rng.randrange(2, 7)
+    out = ""
+    for i in range(n):
+        w = rng.choice(ws) if rng.random() < 0.75 else "".join(rng.choice(ok) for _ in range(rng.randrange(1, 4)))
+        out += w + (rng.choice(SEPARATORS) if i + 1 < n else "")
+    return out
+
+
+FORMULA_TOKEN = __import__("re").compile(r"[A-Za-z_][A-Za-z_0-9]*|\d+\.?\d*(?:[eE][-+]?\d+)?|\*\*|[-+*/^%~!(),]|\S")
+
+
+def spaced_formula(rng, formula):
+    """the same formula typed with other spacing between its tokens (none next to a parenthesis or comma, one blank, runs of
+    blanks, tabs); the first and last characters stay visible"""
+    toks = FORMULA_TOKEN.findall(formula)
+    out = toks[0] if toks else formula
+    for a, b in zip(toks, toks[1:]):
+        tight = (a in "(," or b in "(),") and rng.random() < 0.5
+        out += ("" if tight else rng.choice([" ", " ", "  ", "   ", "\t", " \t ", "     "])) + b
+    return out
+
+
+def respace(rng, spec, quotes=True):
+    """rewrites (in place) the descriptions of the engine, its variables and rule blocks and the formulas of its Function terms
+    with `spaced_text` / `spaced_formula`"""
+    for holder in [spec] + spec["inputs"] + spec["outputs"] + spec["blocks"]:
+        if rng.random() < 0.8:
+            holder["description"] = spaced_text(rng, quotes=quotes)
+    for v in spec["inputs"] + spec["outputs"]:
+        for t in v["terms"]:
+            if t["cls"] == "Function":
+                t["formula"] = spaced_formula(rng, t["formula"])
+    return spec
+
+
 WEIRD_TERM_NAMES = ["t 1", "9lives", "a-b", "x.y", "(p)", "__", "m&m", "3", "a b c", "z!"]
 
 
